@@ -289,7 +289,14 @@ class RuntimeContract:
                 # the post-state lacks something the clause talks about: a genuine violation
                 raise ContractViolation(f'ensures:{cl.label}', f'clause raised {type(ex).__name__}: {ex}')
             if not ok:
-                raise ContractViolation(f'ensures:{cl.label}', f'clause is false: {cl.text}')
+                why = ''
+                try:
+                    from harness import specfuncs_rt as _rt
+                    why = getattr(_rt.H, 'last_detail', '') or ''
+                    _rt.H.last_detail = ''
+                except Exception:      # noqa
+                    pass
+                raise ContractViolation(f'ensures:{cl.label}', f'clause is false: {cl.text}' + (f'  [{why}]' if why else ''))
         self.check_frame(env, snap)
         return ('ok', result)
 
